@@ -43,6 +43,9 @@ func c17Source(k int, shape int, asPackage bool) string {
 	// state
 	sb.WriteString("var keep int\nvar loads int\nvar saved func() string\nvar savedG func(int) string\nvar obj *T\nvar bound func() string\nvar boundP func(int) string\nvar holder *H\nvar list []func() string\nvar anyKeep any\nvar namer Namer\nvar lastErr error\n")
 	fmt.Fprintf(&sb, "var reset = %d\nvar resetS = \"init-v%d\"\n", 100*k, k)
+	// a variable initialised with a function literal: an initialiser like any other (the variable starts over with every
+	// load, whatever it was pointed at in between, and the functions it was pointed at keep their own bodies)
+	fmt.Fprintf(&sb, "var hook = func() string {\n\treturn \"hook@v%d\"\n}\n\n", k)
 	// initialisers that spell the zero value are initialisers all the same
 	sb.WriteString("var zi int = 0\nvar zb bool = false\nvar zs string = \"\"\nvar zf = 0.0\n\n")
 	// locals that shadow package variables, updated by compound assignment and ++
@@ -80,8 +83,8 @@ func c17Source(k int, shape int, asPackage bool) string {
 	// and what it reads and calls afterwards is the reloaded state and code
 	sb.WriteString("func Mid() string {\n\tbefore := keep\n\tr0 := reset\n\treloadnow()\n\tkeep++\n\treset += 5\n\treturn fmt.Sprint(before, keep, r0 > 0, reset) + \" \" + f1() + \" \" + resetS + fmt.Sprint(filler())\n}\n\n")
 	sb.WriteString("func Tick() {\n\tkeep++\n\treset++\n\tresetS += \"+\"\n" + c17StoreTick(asPackage) + "\tzi++\n\tzb = true\n\tzs += \"t\"\n\tzf += 0.5\n\tanyKeep = keep\n\tif obj != nil {\n\t\tobj.N += 10\n\t}\n}\n\n")
-	sb.WriteString("func Capture() {\n\tsaved = f0\n\tsavedG = g\n\tobj = &T{N: keep, Label: \"L\"}\n\tbound = obj.M\n\tboundP = obj.P\n\tholder = &H{F: f1, G: g, P: obj.P}\n\tlist = append(list, f1)\n\tnamer = obj\n\tlastErr = errors.New(\"e\" + fmt.Sprint(keep))\n}\n\n")
-	sb.WriteString("func Report() string {\n\ts := f0() + \" \" + f1() + \" \" + g(2)\n\tif saved != nil {\n\t\ts += \" saved=\" + saved() + \" savedG=\" + savedG(3) + \" bound=\" + bound() + \" holder=\" + holder.F() + holder.G(4) + \" obj=\" + obj.M() + \" boundP=\" + boundP(5) + \" holderP=\" + holder.P(6) + \" namer=\" + namer.M() + \" err=\" + lastErr.Error()\n\t\tfor _, f := range list {\n\t\t\ts += \" l=\" + f()\n\t\t}\n\t} else {\n\t\ts += \" saved=nil\"\n\t}\n\tif obj != nil && HasExtra {\n\t\ts += \" extra=\" + obj.Extra()\n\t}\n\tif anyKeep != nil {\n\t\ts += \" any=\" + fmt.Sprint(anyKeep)\n\t} else {\n\t\ts += \" any=nil\"\n\t}\n" + c17StoreReport(asPackage) + "\ts += \" bump=\" + fmt.Sprint(Bump()) + \" z=\" + fmt.Sprint(zi) + fmt.Sprint(zb) + zs + fmt.Sprint(zf)\n\treturn s + \" keep=\" + fmt.Sprint(keep) + \" reset=\" + fmt.Sprint(reset) + \" resetS=\" + resetS + \" loads=\" + fmt.Sprint(loads)\n}\n")
+	sb.WriteString("func Capture() {\n\tsaved = f0\n\tsavedG = g\n\tobj = &T{N: keep, Label: \"L\"}\n\tbound = obj.M\n\tboundP = obj.P\n\tholder = &H{F: f1, G: g, P: obj.P}\n\tlist = append(list, f1)\n\thook = f1\n\tnamer = obj\n\tlastErr = errors.New(\"e\" + fmt.Sprint(keep))\n}\n\n")
+	sb.WriteString("func Report() string {\n\ts := f0() + \" \" + f1() + \" \" + g(2)\n\tif saved != nil {\n\t\ts += \" saved=\" + saved() + \" savedG=\" + savedG(3) + \" bound=\" + bound() + \" holder=\" + holder.F() + holder.G(4) + \" obj=\" + obj.M() + \" boundP=\" + boundP(5) + \" holderP=\" + holder.P(6) + \" namer=\" + namer.M() + \" err=\" + lastErr.Error()\n\t\tfor _, f := range list {\n\t\t\ts += \" l=\" + f()\n\t\t}\n\t} else {\n\t\ts += \" saved=nil\"\n\t}\n\tif obj != nil && HasExtra {\n\t\ts += \" extra=\" + obj.Extra()\n\t}\n\tif anyKeep != nil {\n\t\ts += \" any=\" + fmt.Sprint(anyKeep)\n\t} else {\n\t\ts += \" any=nil\"\n\t}\n" + c17StoreReport(asPackage) + "\ts += \" hook=\" + hook()\n\ts += \" bump=\" + fmt.Sprint(Bump()) + \" z=\" + fmt.Sprint(zi) + fmt.Sprint(zb) + zs + fmt.Sprint(zf)\n\treturn s + \" keep=\" + fmt.Sprint(keep) + \" reset=\" + fmt.Sprint(reset) + \" resetS=\" + resetS + \" loads=\" + fmt.Sprint(loads)\n}\n")
 	return sb.String()
 }
 
@@ -115,11 +118,20 @@ type c17Model struct {
 	listLen   int
 	errN      int
 	pkg       bool
+	hookF1    bool // hook was pointed at f1 since the last load
 	anySet    bool // anyKeep holds keep's value at the last tick
 	anyV      int
 	ticks     int // all ticks so far (store.Kept)
 	zticks    int // ticks since the last load: variables whose initialiser is a zero value are re-initialised too
 	evalLoads int
+}
+
+// hook: what the variable initialised with a function literal returns when called.
+func (m *c17Model) hook() string {
+	if m.hookF1 {
+		return fmt.Sprintf("f1@v%d", m.ver)
+	}
+	return fmt.Sprintf("hook@v%d", m.ver)
 }
 
 func (m *c17Model) report() string {
@@ -153,6 +165,7 @@ func (m *c17Model) report() string {
 	if m.pkg {
 		s += fmt.Sprintf(" store=%d %d", 100+m.zticks, m.ticks)
 	}
+	s += " hook=" + m.hook()
 	s += fmt.Sprintf(" bump=768 z=%d%v%s%v", m.zticks, m.zticks > 0, strings.Repeat("t", m.zticks), float64(m.zticks)/2)
 	return s + fmt.Sprintf(" keep=%d reset=%d resetS=%s loads=%d", m.keep, m.reset, m.resetS, m.loads)
 }
@@ -168,6 +181,8 @@ func c17Gen(seed int64, idx int) c17Case {
 		case r < 3:
 			cur = rng.Range(1, c.Versions)
 			c.Steps = append(c.Steps, c17Step{Op: "load", Ver: cur})
+		case r < 4 && rng.Chance(1, 3):
+			c.Steps = append(c.Steps, c17Step{Op: "load-broken"})
 		case r < 4 && rng.Bool():
 			cur = rng.Range(1, c.Versions)
 			c.Steps = append(c.Steps, c17Step{Op: "reload-inside", Ver: cur})
@@ -227,6 +242,7 @@ func c17Run(c c17Case) (what string, trace []string) {
 			model.reset = 100 * st.Ver
 			model.resetS = fmt.Sprintf("init-v%d", st.Ver)
 			model.zticks = 0
+			model.hookF1 = false
 			trace = append(trace, fmt.Sprintf("load v%d", st.Ver))
 		case "tick":
 			if o := m.Call(prefix+"Tick", 0); o.Failed() {
@@ -247,10 +263,31 @@ func c17Run(c c17Case) (what string, trace []string) {
 				return fmt.Sprintf("step %d: Capture failed: %s%s", si, core.ErrFirstLine(o.Err), o.Panic), trace
 			}
 			model.captured = true
+			model.hookF1 = true
 			model.errN = model.keep
 			model.objN = model.keep
 			model.listLen++
 			trace = append(trace, "capture")
+		case "load-broken":
+			// a version whose top-level code fails at run time: the load reports an error; what was loaded before stays usable
+			// and later loads work
+			broken := "var boom%d = 1 / zero0()\n\nfunc zero0() int {\n\treturn 0\n}\n"
+			var failed bool
+			if c.Via == "load" {
+				sys := core.MapFS(map[string]string{"app/app.go": "package app\n\n" + fmt.Sprintf(broken, si), "store/store.go": c17Store})
+				var err error
+				if p := core.Guard(func() { err = m.VM.Load(sys, "app") }); p != "" {
+					return fmt.Sprintf("step %d: a Go panic escaped the failing load: %s", si, p), trace
+				}
+				failed = err != nil
+			} else {
+				o := m.Eval(nil, fmt.Sprintf(broken, si))
+				failed = o.Err != ""
+			}
+			if !failed {
+				return fmt.Sprintf("step %d: a version whose initialiser divides by zero loaded without an error", si), trace
+			}
+			trace = append(trace, "load-broken")
 		case "reload-inside":
 			target = st.Ver
 			o := m.Call(prefix+"Mid", 1)
@@ -264,6 +301,7 @@ func c17Run(c c17Case) (what string, trace []string) {
 			model.reset = 100*st.Ver + 5
 			model.resetS = fmt.Sprintf("init-v%d", st.Ver)
 			model.zticks = 0
+			model.hookF1 = false
 			want := fmt.Sprintf("%d %d true %d f1@v%d init-v%d130", before, model.keep, model.reset, st.Ver, st.Ver)
 			trace = append(trace, fmt.Sprintf("reload-inside v%d: %s", st.Ver, o.Rets[0]))
 			if o.Rets[0] != want {
@@ -279,13 +317,16 @@ func c17Run(c c17Case) (what string, trace []string) {
 			if o.Rets[0] != want {
 				return fmt.Sprintf("step %d: after %v the report is %q, the reload contract gives %q", si, trace[:len(trace)-1], o.Rets[0], want), trace
 			}
+			if ho := m.Call(prefix+"hook", 1); ho.Failed() || len(ho.Rets) != 1 || ho.Rets[0] != model.hook() {
+				return fmt.Sprintf("step %d: after %v the host's Call of the variable holding a function gives %v %s, the reload contract gives %q", si, trace[:len(trace)-1], ho.Rets, core.ErrFirstLine(ho.Err), model.hook()), trace
+			}
 		}
 	}
 	return "", trace
 }
 
 func runC17(r *core.Run) {
-	r.SetRule("histories of 5-30 steps (load version k of 2-6, reload the same version, load a version from a host function while a script function is running, tick, capture, report) over a generated package whose function and method bodies return a version tag; captured before reloads: a function value in a no-initialiser global, function values in struct fields and in a slice, a bound method value, an instance; state: no-initialiser int and counters (kept), int and string variables with initialisers (re-initialised), variables whose initialiser spells the zero value (re-initialised), a function whose locals shadow package variables and are updated with += / ++ ; versions also differ in the arity of an internal helper and in added methods; every version brings 130 literals of its own (the VM's tables grow on its first load); the package imports a package whose source never changes (its initialised variable starts over with every load, its other variable is kept); through Load of a package and through repeated Eval of the definitions. non-trivial = at least 2 loads and 1 report after a capture; distinct by history")
+	r.SetRule("histories of 5-30 steps (load version k of 2-6, reload the same version, load a version from a host function while a script function is running, load a version that fails while its top-level code runs, tick, capture, report; the host also calls a variable that holds a function by name) over a generated package whose function and method bodies return a version tag; captured before reloads: a function value in a no-initialiser global, function values in struct fields and in a slice, a bound method value, an instance; state: no-initialiser int and counters (kept), int and string variables with initialisers (re-initialised), variables whose initialiser spells the zero value (re-initialised), a function whose locals shadow package variables and are updated with += / ++ ; versions also differ in the arity of an internal helper and in added methods; every version brings 130 literals of its own (the VM's tables grow on its first load); the package imports a package whose source never changes (its initialised variable starts over with every load, its other variable is kept); through Load of a package and through repeated Eval of the definitions. non-trivial = at least 2 loads and 1 report after a capture; distinct by history")
 	r.Assume("the model encodes the contract stated in the property: after loading version k every function and method - also through references captured earlier - runs version k's body; variables without initialiser keep their values, variables with initialiser are reset, instances keep their fields")
 	n := r.N(3000, 120000)
 	core.Parallel((n+49)/50, func(chunk int) {
